@@ -1,6 +1,7 @@
 // One execution's world: virtual clock, simulated network, reference broker, real client,
 // scripted application, and the event loop that applies one environment decision at a time.
 #pragma once
+#include <set>
 #include <deque>
 #include <cstdlib>
 #include "broker.hpp"
@@ -117,6 +118,7 @@ private:
     void apply(const Event& e);
     bool app_action_enabled() const;
     int64_t last_now_seen = -1; int last_time_change_step = 0;
+    std::set<int> open_before_epilogue;   // streams still open (not closed, not shut down) when the epilogue's cancel() was about to run
     int64_t t_epilogue = -1; int free_ids_at_quiet = -1;   // identifiers free in the allocator when the run went quiescent (all exchanges completed), -1 = not taken
     bool in_epilogue = false; bool show_choices = getenv("SIMNET_SHOW_CHOICES") != nullptr;
     void do_action(const Action& a, bool from_handler);
